@@ -4,11 +4,15 @@
 // behaviour-changing edits applied at EVERY applicable site.
 //
 // Naming convention inside base functions (it replaces a type checker for applicability):
-//   a b c d e i j k m n t v  -> int        x y z u w -> string      s r* -> []int
-//   f g -> float64            p q -> bool   names starting with "lbl" -> labels
+//
+//	a b c d e i j k m n t v  -> int        x y z u w -> string      s r* -> []int
+//	f g -> float64            p q -> bool   names starting with "lbl" -> labels
 package progfam
 
-import "strings"
+import (
+	"fmt"
+	"strings"
+)
 
 // Base is one base function of the family.
 type Base struct {
@@ -30,6 +34,7 @@ var PrivateHelpers = map[string][]string{
 	"method":     {"(rec).calc"},
 	"genericlen": {"glen"},
 	"constrecv":  {"(lvl).tag", "(lv2).tag"},
+	"constbound": {"(bw8).scaled", "(bw16).scaled"},
 }
 
 // ManualEdit is a hand-written behaviour-changing rewrite of a base.
@@ -627,14 +632,14 @@ lblOuter:
 	}
 }
 `}}},
-		mk("padliteral", "	z := \"" + strings.Repeat("A", 127) + "B\"\n	if a > len(z) {\n		return len(z), z\n	}\n	return a, x + z[:1]"),
-		mk("longunicode", "	z := \"" + strings.Repeat("a", 127) + "\u00e9\u00e9 tail of a long literal\"\n	u := \"second-literal\"\n	if b > 0 {\n		return len(z), u\n	}\n	return len(u), z[:3] + y"),
-		mk("hugeliteral", "	z := \"" + strings.Repeat("xy", 2600) + "\"\n	return len(z) + a, z[:2] + x"),
+		mk("padliteral", "	z := \""+strings.Repeat("A", 127)+"B\"\n	if a > len(z) {\n		return len(z), z\n	}\n	return a, x + z[:1]"),
+		mk("longunicode", "	z := \""+strings.Repeat("a", 127)+"\u00e9\u00e9 tail of a long literal\"\n	u := \"second-literal\"\n	if b > 0 {\n		return len(z), u\n	}\n	return len(u), z[:3] + y"),
+		mk("hugeliteral", "	z := \""+strings.Repeat("xy", 2600)+"\"\n	return len(z) + a, z[:2] + x"),
 		// long literals made of 3-byte runes behind 0, 1 and 2 ASCII bytes: whatever byte offset a
 		// length cap cuts at, it falls inside a rune in two of the three
-		mk("cjk0", "	z := \"" + strings.Repeat("\u4e16\u754c", 45) + "\"\n	u := \"second-literal\"\n	if b > 0 {\n		return len(z), u\n	}\n	return len(u), z[:3] + y"),
-		mk("cjk1", "	z := \"a" + strings.Repeat("\u4e16\u754c", 45) + "\"\n	u := \"second-literal\"\n	if b > 0 {\n		return len(z), u\n	}\n	return len(u), z[:4] + y"),
-		mk("cjk2", "	z := \"ab" + strings.Repeat("\u4e16\u754c", 45) + "\"\n	u := \"second-literal\"\n	if b > 0 {\n		return len(z), u\n	}\n	return len(u), z[:5] + y"),
+		mk("cjk0", "	z := \""+strings.Repeat("\u4e16\u754c", 45)+"\"\n	u := \"second-literal\"\n	if b > 0 {\n		return len(z), u\n	}\n	return len(u), z[:3] + y"),
+		mk("cjk1", "	z := \"a"+strings.Repeat("\u4e16\u754c", 45)+"\"\n	u := \"second-literal\"\n	if b > 0 {\n		return len(z), u\n	}\n	return len(u), z[:4] + y"),
+		mk("cjk2", "	z := \"ab"+strings.Repeat("\u4e16\u754c", 45)+"\"\n	u := \"second-literal\"\n	if b > 0 {\n		return len(z), u\n	}\n	return len(u), z[:5] + y"),
 		mk("explicitstep", `	t := 0
 	i := a
 	for i < b+4 {
@@ -793,6 +798,77 @@ func glen[M ~map[int]int](m M, n int) int {
 	}
 	c += c
 	return int(c) + b, x`),
+		// a literal that the compiler folds into a SMALL constant before the analysis sees it
+		mk("foldedlen", `	n := len("abcd") + a
+	if n > b {
+		return n, x
+	}
+	return b - n, "abcd"`),
+		// a function literal in each arm of an if/else (literals are numbered in source order)
+		mk("closurearms", `	var f func(int) int
+	if a >= b {
+		f = func(v int) int { return v + a }
+	} else {
+		f = func(v int) int { return v * 2 }
+	}
+	return f(b), x`),
+		// typed constants as operands of instructions that do not print a type themselves
+		mk("constbinop", `	c := int8(100)
+	d := c * 2
+	if d < 0 {
+		return a, x
+	}
+	return b, y`),
+		mk("constunop", `	c := uint8(1)
+	d := ^c
+	if d > 254 {
+		return a, x
+	}
+	return b, y`),
+		Base{Name: "F", ID: "constbound", Src: "func F" + sig + ` {
+	f := bw8(3).scaled
+	return f() + a, x
+}
+
+type bw8 int8
+
+type bw16 int16
+
+func (v bw8) scaled() int { return int(v * 64) }
+
+func (v bw16) scaled() int { return int(v * 64) }
+`, Manual: []ManualEdit{{"a method VALUE taken from a constant receiver of another type whose method has the same name (bw8(3).scaled -> bw16(3).scaled)", "func F" + sig + ` {
+	f := bw16(3).scaled
+	return f() + a, x
+}
+
+type bw8 int8
+
+type bw16 int16
+
+func (v bw8) scaled() int { return int(v * 64) }
+
+func (v bw16) scaled() int { return int(v * 64) }
+`}}},
+		Base{Name: "F", ID: "localtypeslice", Src: "func F" + sig + ` {
+	type cell int8
+	r := []cell{cell(a), 100}
+	r[1] += r[1]
+	if r[1] < 0 {
+		return b, x
+	}
+	return int(r[0]), y
+}
+`, Manual: []ManualEdit{{"a type declared inside the function and used as a slice element changes its underlying type (type cell int8 -> int16)", "func F" + sig + ` {
+	type cell int16
+	r := []cell{cell(a), 100}
+	r[1] += r[1]
+	if r[1] < 0 {
+		return b, x
+	}
+	return int(r[0]), y
+}
+`}}},
 		mk("consttypeshift", `	return int(int8(1)<<uint(a&7)) + b, x`),
 		Base{Name: "F", ID: "constrecv", Src: "func F" + sig + ` {
 	return lvl(3).tag() + a, x
@@ -848,5 +924,26 @@ func (v lv2) tag() int { return int(v) * 2 }
 	}
 	return t, y`),
 	}
+	bs = append(bs, deepNest(22))
 	return bs
+}
+
+// deepNest: n loops nested inside each other, each counter starting from the enclosing counter
+// (every loop runs once), the innermost one starting from the sum of the counter directly outside
+// it and the OUTERMOST counter: rendering it walks the whole chain of recurrences down to (and, at
+// 22 levels, beyond) the renamer's depth limit, and reaches the outermost counter both directly
+// and at the bottom of the chain.
+func deepNest(n int) Base {
+	var sb strings.Builder
+	sb.WriteString("\tt := 0\n\tfor i0 := 0; i0 < 1; i0++ {\n")
+	for k := 1; k < n-1; k++ {
+		fmt.Fprintf(&sb, "%sfor i%d := i%d; i%d < 1; i%d++ {\n", strings.Repeat("\t", k+1), k, k-1, k, k)
+	}
+	fmt.Fprintf(&sb, "%sfor i%d := i%d + i0; i%d < 1; i%d++ {\n", strings.Repeat("\t", n), n-1, n-2, n-1, n-1)
+	fmt.Fprintf(&sb, "%st += i%d + a\n", strings.Repeat("\t", n+1), n-1)
+	for k := n - 1; k >= 0; k-- {
+		fmt.Fprintf(&sb, "%s}\n", strings.Repeat("\t", k+1))
+	}
+	sb.WriteString("\treturn t, x")
+	return mk(fmt.Sprintf("deepnest%d", n), sb.String())
 }
